@@ -205,7 +205,7 @@ def get_first_file(path: Path) -> Path:  # pragma: no cover
     if path.is_file():
         return path
     if path.is_dir():
-        for child in path.rglob("*"):
+        for child in sorted(path.rglob("*")):
             if child.is_file():
                 return child
     msg = "File not found"
